@@ -20,30 +20,44 @@
 (* one slot per request, in request order, slot i = SeqRead(req[i]).       *)
 (* SharedHandle = TRUE is the mutant design (one handle for all workers),  *)
 (* kept to show that the model can tell the difference.                    *)
+(*                                                                         *)
+(* Generations.  One process makes several calls on the same path; between *)
+(* two calls the archive at that path may be replaced by another one with  *)
+(* other contents and another file set (ReplaceAndCall: vgen + 1).  Worker *)
+(* threads -- and whatever they keep -- survive from call to call.  Every  *)
+(* handle therefore carries the generation it was opened on; the code      *)
+(* opens a fresh handle per task (handle generation = vgen, HandleFresh).  *)
+(* StaleReuse = TRUE is the NAMED DEVIATION StaleHandleReuse: a worker     *)
+(* keeps the handle it opened in an earlier call (a per-thread cache keyed *)
+(* by path only); TLC refutes it (MC_ParExtract_stale.cfg).                *)
 (***************************************************************************)
 EXTENDS Integers, Sequences, FiniteSets, TLC
 
-CONSTANTS Present,        \* names that the archive contains (SeqRead succeeds on them)
-          SharedHandle    \* FALSE: the code's design
+CONSTANTS PresentAt,      \* generation -> names the archive at the path contains in that generation
+          SharedHandle,   \* FALSE: the code's design
+          StaleReuse      \* FALSE: the code's design (TRUE = deviation StaleHandleReuse)
 VARIABLES vreq, vthreads, vbatch, vskip,     \* the call's arguments (vbatch = 0: unbatched)
           vtask,          \* task id -> "todo" | "run" | "done" | "failed" | "dropped"
           vwk,            \* worker -> [task, pos, ph]  ph in idle | opened | sought
-          vhandle,        \* handle id -> name the handle is positioned at ("" = none)
+          vgen,           \* generation of the archive that is at the path now (1, 2, ..)
+          vhandle,        \* handle id -> [gen: generation it was opened on (0 = never), at: name it is positioned at]
           vout,           \* slot -> result | NoRes
           vret            \* the call's return value, NoRes while running
-pxvars == <<vreq, vthreads, vbatch, vskip, vtask, vwk, vhandle, vout, vret>>
+pxvars == <<vreq, vthreads, vbatch, vskip, vtask, vwk, vgen, vhandle, vout, vret>>
 
 NoRes == [kind |-> "none"]
 Ok(n)  == [kind |-> "ok", of |-> n]         \* the content of file n (an opaque token)
 ErrR   == [kind |-> "err", of |-> ""]
-SeqRead(n) == IF n \in Present THEN Ok(n) ELSE ErrR          \* the sequential reference: Archive::read_file
+\* the sequential reference: Archive::read_file on a handle opened on generation g (contents differ per generation)
+SeqReadAt(g, n) == IF g \in DOMAIN PresentAt /\ n \in PresentAt[g] THEN Ok(<<n, g>>) ELSE ErrR
+SeqRead(n) == SeqReadAt(vgen, n)
 
 \* what every interface must return, for a given sequential reference sr(_)
 ExpectedFrom(sr(_), req, skip) ==
   IF ~skip /\ \E i \in 1..Len(req) : sr(req[i]).kind = "err"
   THEN [kind |-> "err", slots |-> <<>>]
   ELSE [kind |-> "ok", slots |-> [i \in 1..Len(req) |-> [name |-> req[i], res |-> sr(req[i])]]]
-Expected(req, skip) == ExpectedFrom(SeqRead, req, skip)
+Expected(req, skip) == ExpectedFrom(SeqRead, req, skip)     \* ... of the archive that is at the path NOW
 
 \* ---- tasks ---------------------------------------------------------------------------------------
 NTasks(n, b)  == IF b = 0 THEN n ELSE (n + b - 1) \div b                 \* `chunks(b)`
@@ -58,7 +72,8 @@ Start(req, t, b, skip) ==
   /\ vreq = req /\ vthreads = t /\ vbatch = b /\ vskip = skip
   /\ vtask = [k \in 1..NTasks(Len(req), b) |-> "todo"]
   /\ vwk = [w \in 1..t |-> Idle]
-  /\ vhandle = [w \in 1..t |-> ""]
+  /\ vgen = 1
+  /\ vhandle = [w \in 1..t |-> [gen |-> 0, at |-> ""]]
   /\ vout = [i \in 1..Len(req) |-> NoRes]
   /\ vret = NoRes
 
@@ -70,14 +85,16 @@ TakeTask(w, k) ==
   /\ vret = NoRes /\ vwk[w].ph = "idle" /\ vtask[k] = "todo"
   /\ vtask' = [vtask EXCEPT ![k] = "run"]
   /\ vwk' = [vwk EXCEPT ![w] = [task |-> k, pos |-> First(k, vbatch), ph |-> "opened"]]
-  /\ vhandle' = [vhandle EXCEPT ![HandleOf(w)] = ""]
-  /\ UNCHANGED <<vout, vret>> /\ UNCHANGED Args
+  \* Archive::open: a fresh handle on what is at the path now (StaleHandleReuse: keep an earlier one)
+  /\ vhandle' = [vhandle EXCEPT ![HandleOf(w)] =
+                    [gen |-> IF StaleReuse /\ @.gen # 0 THEN @.gen ELSE vgen, at |-> ""]]
+  /\ UNCHANGED <<vout, vret, vgen>> /\ UNCHANGED Args
 \* read_file, step 1: find the entry and seek the handle
 Seek(w) ==
   /\ vwk[w].ph = "opened"
-  /\ vhandle' = [vhandle EXCEPT ![HandleOf(w)] = vreq[vwk[w].pos]]
+  /\ vhandle' = [vhandle EXCEPT ![HandleOf(w)].at = vreq[vwk[w].pos]]
   /\ vwk' = [vwk EXCEPT ![w].ph = "sought"]
-  /\ UNCHANGED <<vtask, vout, vret>> /\ UNCHANGED Args
+  /\ UNCHANGED <<vtask, vout, vret, vgen>> /\ UNCHANGED Args
 \* read_file, step 2: read at the handle's position; Put the result into the slot of this request
 Advance(w, k) ==
   IF vwk[w].pos < Last(k, Len(vreq), vbatch)
@@ -87,30 +104,40 @@ ReadOne(w) ==
   /\ vwk[w].ph = "sought"
   /\ LET k == vwk[w].task
          i == vwk[w].pos
-         r == SeqRead(vhandle[HandleOf(w)])            \* what the handle is positioned at
+         r == SeqReadAt(vhandle[HandleOf(w)].gen, vhandle[HandleOf(w)].at)   \* what the handle is positioned at
      IN  /\ (r.kind = "ok" \/ vskip)
          /\ vout' = [vout EXCEPT ![i] = r]             \* Put(i, r)
          /\ Advance(w, k)
-  /\ UNCHANGED <<vhandle, vret>> /\ UNCHANGED Args
+  /\ UNCHANGED <<vhandle, vret, vgen>> /\ UNCHANGED Args
 \* without skip_errors an error ends the task (the `?`); the rest of its chunk is not read
 FailFast(w) ==
   /\ vwk[w].ph = "sought" /\ ~vskip
-  /\ SeqRead(vhandle[HandleOf(w)]).kind = "err"
+  /\ SeqReadAt(vhandle[HandleOf(w)].gen, vhandle[HandleOf(w)].at).kind = "err"
   /\ vtask' = [vtask EXCEPT ![vwk[w].task] = "failed"]
   /\ vwk' = [vwk EXCEPT ![w] = Idle]
-  /\ UNCHANGED <<vhandle, vout, vret>> /\ UNCHANGED Args
+  /\ UNCHANGED <<vhandle, vout, vret, vgen>> /\ UNCHANGED Args
 \* collecting into Result lets rayon drop work that has not started once some task failed
 SkipTask(k) ==
   /\ vret = NoRes /\ Failing /\ vtask[k] = "todo"
   /\ vtask' = [vtask EXCEPT ![k] = "dropped"]
-  /\ UNCHANGED <<vwk, vhandle, vout, vret>> /\ UNCHANGED Args
+  /\ UNCHANGED <<vwk, vhandle, vout, vret, vgen>> /\ UNCHANGED Args
 \* the call returns when no task is to do or running
 Collect ==
   /\ vret = NoRes
   /\ \A k \in Tasks : vtask[k] \in {"done", "failed", "dropped"}
   /\ vret' = IF Failing THEN [kind |-> "err", slots |-> <<>>]
              ELSE [kind |-> "ok", slots |-> [i \in 1..Len(vreq) |-> [name |-> vreq[i], res |-> vout[i]]]]
-  /\ UNCHANGED <<vtask, vwk, vhandle, vout>> /\ UNCHANGED Args
+  /\ UNCHANGED <<vtask, vwk, vhandle, vout, vgen>> /\ UNCHANGED Args
+\* after a call has returned: the archive at the path is replaced (next generation) and the same process makes the
+\* next call with the same pool (workers and their handles survive)
+ReplaceAndCall(req) ==
+  /\ vret # NoRes /\ (vgen + 1) \in DOMAIN PresentAt
+  /\ vgen' = vgen + 1
+  /\ vreq' = req
+  /\ vtask' = [k \in 1..NTasks(Len(req), vbatch) |-> "todo"]
+  /\ vout' = [i \in 1..Len(req) |-> NoRes]
+  /\ vret' = NoRes
+  /\ UNCHANGED <<vthreads, vbatch, vskip, vwk, vhandle>>
 
 PxNext == \/ \E w \in Workers : \/ (\E k \in Tasks : TakeTask(w, k)) \/ Seek(w) \/ ReadOne(w) \/ FailFast(w)
           \/ \E k \in Tasks : SkipTask(k)
@@ -120,6 +147,8 @@ PxNext == \/ \E w \in Workers : \/ (\E k \in Tasks : TakeTask(w, k)) \/ Seek(w) 
 ScheduleIndependent == vret # NoRes => vret = Expected(vreq, vskip)
 \* no slot is ever written with something else than the sequential answer (also in calls that fail)
 SlotsRight == \A i \in 1..Len(vreq) : vout[i] = NoRes \/ vout[i] = SeqRead(vreq[i])
+\* a read at generation g uses a handle of generation g
+HandleFresh == \A w \in Workers : vwk[w].ph \in {"opened", "sought"} => vhandle[HandleOf(w)].gen = vgen
 \* the call always returns: some step is possible until it has
 Returns == vret = NoRes => ENABLED PxNext
 =============================================================================
